@@ -867,6 +867,13 @@ def _process_graph_io_arguments(iofile, graph_type, file_format, multi_edges):
 
 def normalize_networkx_labels(G):
     """Relabel all vertices as integer starting from 1"""
+    # Labels which are all strings of digits (e.g. the ones read from
+    # a DOT file) are sorted as numbers: '2' comes before '10'.
+    labels = list(G.nodes())
+    if len(labels) > 0 and all(isinstance(v, str) and v.isdecimal() for v in labels):
+        labels.sort(key=int)
+        mapping = {v: i for i, v in enumerate(labels, start=1)}
+        return networkx.relabel_nodes(G, mapping)
     # Normalize GML file. All nodes are integers starting from 1
     try:
         G = networkx.convert_node_labels_to_integers(
